@@ -29,6 +29,8 @@ pub struct RunStats {
     pub stub_validated: bool,
     pub stub_disagreement: Option<String>,
     pub unexpected_reference_errors: u64,
+    pub duplicate_reports: u64,
+    pub rewritten_outputs: u64,
 }
 
 pub struct Exec {
@@ -166,6 +168,11 @@ fn execute_real(
     tierb::materialize(&scratch.root, entries, walk_seed)?;
     let before = tierb::snapshot(&scratch.root);
     let first = tierb::run_binary(&scratch.root, &args, hash_seed)?;
+    if let Outcome::BatchErr(msg) = &first.outcome {
+        if msg.starts_with("harness:") {
+            return Err(msg.clone());
+        }
+    }
     let after = tierb::snapshot(&scratch.root);
     let rerun = if rerun {
         let second = tierb::run_binary(&scratch.root, &args, hash_seed)?;
@@ -268,24 +275,74 @@ fn layout(scn: &C11Scenario, entries: &[FsEntry]) -> Layout {
     }
 }
 
-/// Attribute an error text to an expected source: the first quoted path is the item's
-/// source, or (failed write) its destination or an ancestor directory of it.
-fn attribute(text: &str, lay: &Layout) -> Vec<String> {
-    let quoted = quoted_paths(text);
-    let first = match quoted.first() {
-        Some(first) => norm_quoted(first),
-        None => return Vec::new(),
-    };
-    if lay.expected.contains(&first) {
-        return vec![first];
+fn is_path_char(c: char) -> bool {
+    c.is_alphanumeric() || matches!(c, '/' | '.' | '_' | '-')
+}
+
+/// Byte offset of the first occurrence of `path` in `text` that is delimited like a path
+/// (not the middle of a longer path or name). Independent of how the message quotes it.
+pub fn mention(text: &str, path: &str) -> Option<usize> {
+    if path.is_empty() {
+        return None;
     }
-    let mut out = Vec::new();
-    for (source, mirror) in &lay.mirror {
-        if *mirror == first || mirror.starts_with(&format!("{}/", first)) {
-            out.push(source.clone());
+    let mut from = 0;
+    while let Some(pos) = text[from..].find(path) {
+        let start = from + pos;
+        let end = start + path.len();
+        let before_ok = match text[..start].chars().next_back() {
+            None => true,
+            Some('/') => text[..start].ends_with("./"),
+            Some(c) => !is_path_char(c),
+        };
+        let after_ok = match text[end..].chars().next() {
+            None => true,
+            Some(c) => !is_path_char(c) || (c == '.' && !text[end + 1..].starts_with(|x: char| x.is_alphanumeric())),
+        };
+        if before_ok && after_ok {
+            return Some(start);
+        }
+        from = start + path.len().max(1);
+        while !text.is_char_boundary(from) {
+            from += 1;
+        }
+        if from >= text.len() {
+            break;
         }
     }
-    out
+    None
+}
+
+/// Attribute an error text to expected sources: the path mentioned first in the text is
+/// the item's source, or (failed write) its destination or an ancestor directory of it
+/// (then several sources may share it). How the message quotes paths does not matter.
+fn attribute(text: &str, lay: &Layout) -> Vec<String> {
+    // (position, -length) of the best mention and the sources it stands for
+    let mut best: Option<((usize, isize), Vec<String>)> = None;
+    let mut consider = |name: &str, sources: Vec<String>| {
+        if let Some(pos) = mention(text, name) {
+            let key = (pos, -(name.len() as isize));
+            match &best {
+                Some((k, _)) if *k <= key => {}
+                _ => best = Some((key, sources)),
+            }
+        }
+    };
+    for source in &lay.expected {
+        consider(source, vec![source.clone()]);
+    }
+    let mut by_target: BTreeMap<String, Vec<String>> = BTreeMap::new();
+    for (source, mirror) in &lay.mirror {
+        by_target.entry(mirror.clone()).or_default().push(source.clone());
+        let mut p = gen::parent(mirror);
+        while !p.is_empty() {
+            by_target.entry(p.to_owned()).or_default().push(source.clone());
+            p = gen::parent(p);
+        }
+    }
+    for (target, sources) in by_target {
+        consider(&target, sources);
+    }
+    best.map(|(_, sources)| sources).unwrap_or_default()
 }
 
 /// Content-bad files plus files under a persistent read fault.
@@ -648,6 +705,9 @@ pub fn check(scn: &C11Scenario, stats: &mut RunStats) -> Result<Vec<Violation>, 
     // an error naming a directory shared by several destinations belongs to one of the
     // sources below it: give each such error to a candidate that has none yet, faulty
     // candidates first
+    // most constrained first, so that the assignment does not depend on the order (or the
+    // wording) of the error texts
+    ambiguous.sort_by_key(|(_, sources)| sources.len());
     for (text, sources) in ambiguous {
         if sources.is_empty() {
             violations.push(Violation::new(
@@ -675,13 +735,9 @@ pub fn check(scn: &C11Scenario, stats: &mut RunStats) -> Result<Vec<Violation>, 
                 format!("healthy file `{}` reported as failing: {:?}", source, texts),
             ));
         }
+        // a file reported more than once is still "reported with its path": counted only
         if texts.len() > 1 {
-            violations.push(Violation::new(
-                P,
-                "report",
-                "duplicate-error",
-                format!("`{}` reported {} times: {:?}", source, texts.len(), texts),
-            ));
+            stats.duplicate_reports += 1;
         }
     }
     if scn.opts.fail_fast {
@@ -727,10 +783,12 @@ pub fn check(scn: &C11Scenario, stats: &mut RunStats) -> Result<Vec<Violation>, 
     for (source, texts) in &reported {
         let mirror = lay.mirror.get(source).cloned().unwrap_or_default();
         for text in texts {
-            let names_it = quoted_paths(text).iter().any(|q| {
-                let q = norm_quoted(q);
-                q == *source || q == mirror || mirror.starts_with(&format!("{}/", q))
-            });
+            let mut names_it = mention(text, source).is_some() || mention(text, &mirror).is_some();
+            let mut p = gen::parent(&mirror);
+            while !names_it && !p.is_empty() {
+                names_it = mention(text, p).is_some();
+                p = gen::parent(p);
+            }
             if !names_it {
                 violations.push(Violation::new(
                     P,
@@ -915,16 +973,8 @@ pub fn check(scn: &C11Scenario, stats: &mut RunStats) -> Result<Vec<Violation>, 
             _ => {}
         }
     }
-    for (path, count) in &writes_per_path {
-        if *count > 1 {
-            violations.push(Violation::new(
-                P,
-                "map",
-                "output-written-twice",
-                format!("`{}` was written {} times in one run", path, count),
-            ));
-        }
-    }
+    // an output written more than once in one run still is one output: counted only
+    stats.rewritten_outputs += writes_per_path.values().filter(|c| **c > 1).count() as u64;
 
     // --- determinism: rerun over the resulting state
     if let Some((outcome2, after2, _log2)) = &a.rerun {
@@ -1234,6 +1284,9 @@ pub fn generate(seed: u64) -> C11Scenario {
                     {
                         // a require cycle
                         let (a, b) = (victim.min(other), victim.max(other));
+                        // the added requires must resolve to exactly these files
+                        project.sources[a].bare = false;
+                        project.sources[b].bare = false;
                         let pa = project.sources[a].path.clone();
                         let pb = project.sources[b].path.clone();
                         if !project.sources[a].requires.contains(&pb) {
@@ -1670,6 +1723,8 @@ impl Property for C11 {
             "healthy_projects_failing_in_reference".to_owned(),
             stats.unexpected_reference_errors,
         );
+        counters.insert("files_reported_more_than_once".to_owned(), stats.duplicate_reports);
+        counters.insert("outputs_written_more_than_once".to_owned(), stats.rewritten_outputs);
         if scn.keep_bad_in_reference {
             counters.insert("convert_require_projects".to_owned(), 1);
         }
